@@ -14,6 +14,45 @@ inductive Doc where
   | map (ps : List (Doc × Doc))
   deriving Repr, Inhabited
 
+/-- a string of `len` bytes starting at `start` -/
+def strDoc (b : Bytes) (start len : Nat) : Option (Doc × Nat) :=
+  if start + len ≤ b.size then some (.str (b.extract start (start + len)), start + len) else none
+
+/-- what a marker byte announces -/
+inductive Marker where
+  | imm (d : Doc)                 -- complete in the marker byte
+  | f32 | f64
+  | uint (n : Nat) | sint (n : Nat)     -- n payload bytes
+  | strFix (len : Nat) | strN (n : Nat) -- n length bytes
+  | arrFix (len : Nat) | arrN (n : Nat)
+  | mapFix (len : Nat) | mapN (n : Nat)
+  | bad
+  deriving Inhabited
+
+/-- markers 0xc0 … 0xdf -/
+def markerTagged (m : Nat) : Marker :=
+  match m with
+  | 0xc0 => .imm .nil
+  | 0xc2 => .imm (.bool false)
+  | 0xc3 => .imm (.bool true)
+  | 0xca => .f32
+  | 0xcb => .f64
+  | 0xcc => .uint 1 | 0xcd => .uint 2 | 0xce => .uint 4 | 0xcf => .uint 8
+  | 0xd0 => .sint 1 | 0xd1 => .sint 2 | 0xd2 => .sint 4 | 0xd3 => .sint 8
+  | 0xd9 => .strN 1 | 0xda => .strN 2 | 0xdb => .strN 4
+  | 0xdc => .arrN 2 | 0xdd => .arrN 4
+  | 0xde => .mapN 2 | 0xdf => .mapN 4
+  | _ => .bad
+
+def markerOf (m : Nat) : Marker :=
+  if m < 0xc0 then
+    (if m < 0x80 then .imm (.int m)
+     else if m < 0x90 then .mapFix (m - 0x80)
+     else if m < 0xa0 then .arrFix (m - 0x90)
+     else .strFix (m - 0xa0))
+  else if 0xe0 ≤ m then .imm (.int (toSigned 8 m))
+  else markerTagged m
+
 mutual
 /-- decode one value at `p`: (document, end offset); fuel bounds the nesting depth -/
 def decodeAt (b : Bytes) : Nat → Nat → Option (Doc × Nat)
@@ -22,44 +61,26 @@ def decodeAt (b : Bytes) : Nat → Nat → Option (Doc × Nat)
     match b[p]? with
     | none => none
     | some mk =>
-      let m := mk.toNat
       let q := p + 1
-      let strD (start len : Nat) : Option (Doc × Nat) :=
-        if start + len ≤ b.size then some (.str (b.extract start (start + len)), start + len) else none
-      let intU (n : Nat) : Option (Doc × Nat) :=
-        match beRead b q n with | none => none | some v => some (.int v, q + n)
-      let intS (n : Nat) : Option (Doc × Nat) :=
-        match beRead b q n with | none => none | some v => some (.int (toSigned (8 * n) v), q + n)
-      let arrD (start len : Nat) : Option (Doc × Nat) :=
-        match decodeN b f len start with | none => none | some (xs, e) => some (.arr xs, e)
-      let mapD (start len : Nat) : Option (Doc × Nat) :=
-        match decodePairs b f len start with | none => none | some (ps, e) => some (.map ps, e)
-      if m < 0x80 then some (.int m, q)
-      else if m < 0x90 then mapD q (m - 0x80)
-      else if m < 0xa0 then arrD q (m - 0x90)
-      else if m < 0xc0 then strD q (m - 0xa0)
-      else if m = 0xc0 then some (.nil, q)
-      else if m = 0xc2 then some (.bool false, q)
-      else if m = 0xc3 then some (.bool true, q)
-      else if m = 0xca then (match beRead b q 4 with | none => none | some v => some (.f32 v, q + 4))
-      else if m = 0xcb then (match beRead b q 8 with | none => none | some v => some (.f64 v, q + 8))
-      else if m = 0xcc then intU 1
-      else if m = 0xcd then intU 2
-      else if m = 0xce then intU 4
-      else if m = 0xcf then intU 8
-      else if m = 0xd0 then intS 1
-      else if m = 0xd1 then intS 2
-      else if m = 0xd2 then intS 4
-      else if m = 0xd3 then intS 8
-      else if m = 0xd9 then (match beRead b q 1 with | none => none | some l => strD (q + 1) l)
-      else if m = 0xda then (match beRead b q 2 with | none => none | some l => strD (q + 2) l)
-      else if m = 0xdb then (match beRead b q 4 with | none => none | some l => strD (q + 4) l)
-      else if m = 0xdc then (match beRead b q 2 with | none => none | some l => arrD (q + 2) l)
-      else if m = 0xdd then (match beRead b q 4 with | none => none | some l => arrD (q + 4) l)
-      else if m = 0xde then (match beRead b q 2 with | none => none | some l => mapD (q + 2) l)
-      else if m = 0xdf then (match beRead b q 4 with | none => none | some l => mapD (q + 4) l)
-      else if 0xe0 ≤ m then some (.int (toSigned 8 m), q)
-      else none
+      match markerOf mk.toNat with
+      | .imm d => some (d, q)
+      | .f32 => (match beRead b q 4 with | none => none | some v => some (.f32 v, q + 4))
+      | .f64 => (match beRead b q 8 with | none => none | some v => some (.f64 v, q + 8))
+      | .uint n => (match beRead b q n with | none => none | some v => some (.int v, q + n))
+      | .sint n => (match beRead b q n with | none => none | some v => some (.int (toSigned (8 * n) v), q + n))
+      | .strFix len => strDoc b q len
+      | .strN n => (match beRead b q n with | none => none | some l => strDoc b (q + n) l)
+      | .arrFix len => (match decodeN b f len q with | none => none | some (xs, e) => some (.arr xs, e))
+      | .arrN n =>
+        (match beRead b q n with
+         | none => none
+         | some l => match decodeN b f l (q + n) with | none => none | some (xs, e) => some (.arr xs, e))
+      | .mapFix len => (match decodePairs b f len q with | none => none | some (ps, e) => some (.map ps, e))
+      | .mapN n =>
+        (match beRead b q n with
+         | none => none
+         | some l => match decodePairs b f l (q + n) with | none => none | some (ps, e) => some (.map ps, e))
+      | .bad => none
 def decodeN (b : Bytes) : Nat → Nat → Nat → Option (List Doc × Nat)
   | _, 0, p => some ([], p)
   | f, k+1, p =>
